@@ -1079,11 +1079,15 @@ post_process_multipart (struct MHD_PostProcessor *pp,
                             PP_Done);
       break;
     case PP_NextBoundary:
+      /* The nested multipart/mixed has ended: the next form-data element
+         must not inherit the name, filename, content type, transfer
+         encoding and nested boundary of this one, so go through the
+         cleanup state before parsing its headers. */
       if (MHD_NO == find_boundary (pp,
                                    pp->boundary,
                                    pp->blen,
                                    &ioff,
-                                   PP_ProcessEntryHeaders,
+                                   PP_PerformCleanup,
                                    PP_Done))
       {
         if (pp->state == PP_Error)
